@@ -901,5 +901,6 @@ Proof.
 Qed.
 
 Lemma eq_account_ok_example :
-  eq_account_ok c10_eo = true /\ eq_account_ok [[97]; [32; 98]]%N = false /\ eq_account_ok [[]] = false.
+  eq_account_ok2 c10_eo = true /\ eq_account_ok2 [[97]; [32; 98]]%N = false /\ eq_account_ok2 [[]] = false
+  /\ eq_account_ok [[97; 33; 98]]%N = true /\ eq_account_ok2 [[97; 33; 98]]%N = false.
 Proof. vm_compute. repeat split; reflexivity. Qed.
